@@ -513,6 +513,19 @@ theorem rloopWith_tri (run : St → Res) (hrun : Tri run) (runElse : Option (St 
         (fun r => afterLoop runElse r { r.st with c := { r.st.c with err := none } }) k s
         (rloopLoop_lock run hrun ls (loopItems vv sub) 0 k s h) k1 k2 k3
 
+
+theorem rloopQB_tri (run : St → Res) (hrun : Tri run) (runElse : Option (St → Res))
+    (helse : ∀ re, runElse = some re → Tri re) (ls : RLoopSpec) :
+    Tri (rloopQB run runElse ls) := by
+  refine ⟨?_, rloopQB_frame run hrun.frame runElse (fun re h => (helse re h).frame) ls,
+    Frozen.rloopQB_mono run hrun.frozen runElse (fun re h => (helse re h).frozen) ls⟩
+  intro k s h
+  unfold rloopQB
+  show Lk k _ (match cmpPath s.c.vars s.c.chQB ls.src with | none => _ | some p => _)
+  cases cmpPath s.c.vars s.c.chQB ls.src with
+  | none => exact Or.inl rfl
+  | some p => exact (rloopWith_tri run hrun runElse helse { ls with src := p }).lock k s h
+
 theorem loopNode_tri (loop : St → Res) (hl : Tri loop) : Tri (loopNode loop) := by
   refine ⟨?_, loopNode_frame loop hl.frame, Frozen.loopNode_mono loop hl.frozen⟩
   intro k s h
@@ -686,10 +699,10 @@ theorem interp_lock (reg : Registry) : ∀ f : Nat,
       | rloop ls child =>
         intro k s h
         rw [writeNode, writeNode]
-        have key : Tri (loopNode (rloopWith (fun st => writeSeq reg f (loopParts child).1 st)
+        have key : Tri (loopNode (rloopQB (fun st => writeSeq reg f (loopParts child).1 st)
             ((loopParts child).2.map (fun e st => elseRun (elseSeq (e.map (fun n st' => writeNode reg f n st'))) (!e.isEmpty) st)) ls)) := by
           apply loopNode_tri
-          apply rloopWith_tri
+          apply rloopQB_tri
           · exact triS _
           · intro re hre
             cases hp : (loopParts child).2 with
